@@ -4,11 +4,11 @@ import alloc_common as ac
 import ctrl_common as cc
 
 ALLOC_SIGS = {'alloc-failed-though-admissible','alloc-frompool-failed-though-admissible','alloc-released-not-reusable','alloc-checksharing-vs-statement'}
-CTRL_SIGS = {'starved-though-free-address-admissible','starved-only-shareable-candidate','no-reload-on-port-change','mixed-policy-identical-selectors-refused','ctrl-does-not-settle','converged-service-rewritten'}
+CTRL_SIGS = {'starved-though-free-address-admissible','starved-only-shareable-candidate','no-reload-on-port-change','mixed-policy-identical-selectors-refused','ctrl-does-not-settle','ctrl-exceeds-proved-settling-bound','converged-service-rewritten'}
 
 def run(ctx):
     ctx.coq_build(["Properties/C07.v"] + ac.COQ_FILES + cc.COQ_FILES)
-    ctx.coq_theorems("Properties/C07.v", sorted(set(ac.CLOSURE + ["Proofs/AllocP.v", "Proofs/AllocPolicyP.v", "Proofs/AllocMonoP.v", "Proofs/CtrlStarveP.v"] + cc.CLOSURE)))
+    ctx.coq_theorems("Properties/C07.v", sorted(set(ac.CLOSURE + ["Proofs/AllocP.v", "Proofs/AllocPolicyP.v", "Proofs/AllocMonoP.v", "Proofs/AllocCompleteP.v", "Proofs/CtrlStarveP.v", "Proofs/CtrlRestartP.v", "Proofs/CtrlStableP.v", "Proofs/CtrlPostP.v", "Proofs/CtrlTotalP.v", "Proofs/CtrlProgressP.v"] + cc.CLOSURE)))
     acases, ast, amism, asearch = ac.run_alloc(ctx, ALLOC_SIGS, n_quick=100)
     ccases, cst, cmism, csearch = cc.run_ctrl(ctx, CTRL_SIGS, n_quick=120)
     def search():
